@@ -403,8 +403,10 @@ func c06Burst(w *c06World, p C06Probe, cacheOn bool) (*kit.Finding, string) {
 	for i, cn := range conns {
 		cn.SetReadDeadline(time.Now().Add(2 * time.Millisecond))
 		n, err := cn.Read(make([]byte, 16))
-		if n > 0 || (err != nil && !kit.IsTimeout(err)) {
-			return kit.Violation("probe:closed-early", "copy %d of %d identical handshakes: got %d bytes / %v only %v after connect (timeout %v)", i, k, n, err, time.Since(t0), c06T), "probe"
+		// judged by the clock *after* the read: a close seen later than 0.9 T may be the regular one (the tester may
+		// have been descheduled)
+		if el := time.Since(t0); n > 0 || (err != nil && !kit.IsTimeout(err) && el < c06T*9/10) {
+			return kit.Violation("probe:closed-early", "copy %d of %d identical handshakes: got %d bytes / %v only %v after connect (timeout %v)", i, k, n, err, el, c06T), "probe"
 		}
 	}
 	return nil, "probe"
